@@ -58,6 +58,19 @@ func (c *FnCtx) call(in ssa.CallInstruction, cc *ssa.CallCommon) Val {
 	if b, ok := cc.Value.(*ssa.Builtin); ok {
 		return c.builtin(in, cc, b)
 	}
+	if sc := cc.StaticCallee(); sc != nil && c.con != nil && c.con.AtCall != nil {
+		for _, cl := range c.con.AtCall[sc.Name()] {
+			c.atNewSeen["call:"+sc.Name()] = true
+			if !clauseActive(cl, c.prop) {
+				continue
+			}
+			env := c.specEnvFor(c.cur, c.entry, nil)
+			f := env.trGoal(cl.E)
+			c.flushFacts(env)
+			ob := c.assert(c.curItems, "requires", fmt.Sprintf("atcall:%s#%d", sc.Name(), cl.Ord), "", f, in, cl.Tags, len(cl.Tags) == 0)
+			ob.Text = cl.Text
+		}
+	}
 	if cc.IsInvoke() {
 		recv := c.val(cc.Value)
 		c.assert(c.curItems, "nilderef", "nilderef", exprText(cc.Value)+"."+cc.Method.Name()+"()", sNot(sEq(sx("itag", recv.T), "0")), in, nil, true)
